@@ -412,10 +412,10 @@ func (w *World) Publish() {
 	s := NewPCS()
 	s.Tcb[strings.ToLower(hex.EncodeToString(w.P.Ext.FMSPC[:]))] = &Endpoint{
 		Hdr:  map[string][]string{HdrTcbInfo: {IssuerChainHeader(w.TcbSignerInTcb, w.RootInTcb)}},
-		Body: SignedBody("tcbInfo", w.Tcb.JSON(), w.A.TcbKey)}
+		Body: SignedBody("tcbInfo", w.Tcb.JSON(), w.TcbSignerInTcb.Key)}
 	s.QE = &Endpoint{
 		Hdr:  map[string][]string{HdrQE: {IssuerChainHeader(w.TcbSignerInQE, w.RootInQE)}},
-		Body: SignedBody("enclaveIdentity", w.QE.JSON(), w.A.TcbKey)}
+		Body: SignedBody("enclaveIdentity", w.QE.JSON(), w.TcbSignerInQE.Key)}
 	w.PckCrlDER = MakeCRL(w.PckCrl, w.CA, w.CAKey)
 	w.RootCrlDER = MakeCRL(w.RootCrl, w.A.Root, w.A.RootKey)
 	s.PckCrl[w.CAID] = &Endpoint{Hdr: map[string][]string{HdrPckCrl: {IssuerChainHeader(w.CAInCrl, w.RootInCrl)}}, Body: w.PckCrlDER}
